@@ -159,7 +159,7 @@ def run(model, col, tier):
                 nm = e.node.targets[0].id
                 if t == f"pathlib.Path({ld.args.args[1].arg})" or t == f"Path({ld.args.args[1].arg})":
                     state[nm] = "given"
-                elif isinstance(v, ast.Call) and last_attr(v) == "with_suffix" and isinstance(v.func.value, ast.Name) and state.get(v.func.value.id) == "given" and "nslir" in t:
+                elif isinstance(v, ast.Call) and last_attr(v) == "with_suffix" and isinstance(v.func.value, ast.Name) and state.get(v.func.value.id) == "given" and ("nslir" in t or _suffix_setting(model, v) == ".nslir"):
                     state[nm] = "suffixed"
                 elif isinstance(v, ast.Name) and v.id in state:
                     state[nm] = state[v.id]
@@ -314,6 +314,25 @@ def run(model, col, tier):
             got.add(conv)
         col.check(got == {want}, "R17.5", f"nslr.py::run converts a `{text}` argument", f"{want[1:-1]}(<text>) for an IR {cname} parameter",
                   f"a `{text}` parameter ({cname}) is handed to the VM as {sorted(got)}: the stored module is invoked with other values (or a string is refused) than the in-memory one", "nslr.py", loop)
+
+
+def _suffix_setting(model, call):
+    """`path.with_suffix(self.<f>)` where <f> is a constructor setting: the default of the parameter it is copied from"""
+    a = call.args[0] if call.args else None
+    if not (isinstance(a, ast.Attribute) and isinstance(a.value, ast.Name)):
+        return None
+    ci = model.cls(IR, "FilesystemModuleLoader")
+    init = ci.own_method("__init__")
+    if init is None:
+        return None
+    params = [x.arg for x in init.args.args[1:]] + [x.arg for x in init.args.kwonlyargs]
+    defaults = dict(zip(reversed([x.arg for x in init.args.args]), reversed(init.args.defaults)))
+    defaults.update({x.arg: d for x, d in zip(init.args.kwonlyargs, init.args.kw_defaults) if d is not None})
+    for n in ast.walk(init):
+        if isinstance(n, ast.Assign) and isinstance(n.targets[0], ast.Attribute) and n.targets[0].attr in (a.attr, a.attr.split("__")[-1]) and isinstance(n.value, ast.Name) and n.value.id in params:
+            d = defaults.get(n.value.id)
+            return d.value if isinstance(d, ast.Constant) else None
+    return None
 
 
 def _identity_calls(tree):
